@@ -62,7 +62,12 @@ TRUSTED = [
     "waits at the relay is forgotten by the relay at once; the relay path counts for the proviso while both legs are possible "
     "(WV.C11.relayLeg), a leg through a hint from the moment the hint of that generation is sent; the relay certificate (absR) "
     "has no records / timer / silent loss and leaves out the networks where both sides can also dial directly",
-    "network reachability is a per-run constant: the set of sides whose DIALLED connections get through (both, only A, only B; "
+    "a connection attempt has three stages: scheduled (deferLater pending), in flight (`ep.connect()` called: a cancellable "
+    "Deferred, like TCP4ClientEndpoint's), answered (established / refused / timed out / joined at the relay) — the case decides "
+    "when each happens; attempts are answered oldest first; the relay serves the longest-waiting matching connection first; "
+    "`cut X` = the network changes and X's dialled connections stop getting through (allowed while another path remains and the "
+    "last candidate in progress is spared); `cut` is not part of any certificate",
+    "network reachability starts as: the set of sides whose DIALLED connections get through (both, only A, only B; "
     "an unreachable dial fails with ConnectError/TimeoutError); the proviso 'at least one attempt of the new generation may "
     "complete' = the network never drops the last VIABLE candidate, where fresh hints count from the moment they are sent "
     "(WV.C11.killOK / otherCandidates, mirrored by World.kill_ok)",
@@ -181,17 +186,21 @@ class RelayEP:
         self.world, self.side = world, side
 
     def connect(self, factory):
+        return InFlight(self, factory).d
+
+    def complete(self, factory):
+        """the TCP connection to the relay is established; the relay joins it with the peer's oldest waiting one"""
         w = self.world
         me = self.side.name
         other = "B" if me == "A" else "A"
         p = factory.buildProtocol(IPv4Address("TCP", "127.0.0.9", 4001))
         end = RelayHalf(me)
         p.makeConnection(end)                       # writes the sided relay handshake
-        waiting = w.rhalf[other]
-        if waiting is not None and waiting[1].status == "open":
+        waiting = w.half(other)
+        if waiting is not None:
             pp, pend = waiting
             assert end.pre.split(b" for side ")[0] == pend.pre.split(b" for side ")[0], "relay tokens differ"
-            w.rhalf[other] = None
+            w.rwait[other].remove(waiting)
             link = Link(me)
             link.relay = True
             link.proto = {me: p, other: pp}
@@ -201,8 +210,30 @@ class RelayEP:
             pp.dataReceived(b"ok\n")                # the relay tells both that the peer is there
             p.dataReceived(b"ok\n")
         else:
-            w.rhalf[me] = (p, end)
-        return defer.succeed(p)
+            w.rwait[me].append((p, end))
+        return p
+
+
+class InFlight:
+    """a connection attempt in flight: `ep.connect(factory)` was called, nothing has come back yet.  Its Deferred can be
+    cancelled (as TCP4ClientEndpoint's: the attempt is aborted); the case decides when it is answered."""
+
+    def __init__(self, ep, factory):
+        self.ep, self.factory = ep, factory
+        self.d = defer.Deferred(self._cancel)
+        ep.side.inflight.append(self)
+
+    def _cancel(self, d):
+        if self in self.ep.side.inflight:
+            self.ep.side.inflight.remove(self)
+
+    def answer(self):
+        self.ep.side.inflight.remove(self)
+        r = self.ep.complete(self.factory)
+        if isinstance(r, failure.Failure):
+            self.d.errback(r)
+        else:
+            self.d.callback(r)
 
 
 class Port:
@@ -236,12 +267,15 @@ class ClientEP:
         self.world, self.side, self.port = world, side, port
 
     def connect(self, factory):
+        return InFlight(self, factory).d
+
+    def complete(self, factory):
         w = self.world
         port = w.ports.get(self.port)
         if not w.reach[self.side.name]:
-            return defer.fail(failure.Failure(ConnectTimeoutError()))      # the SYN never gets through
+            return failure.Failure(ConnectTimeoutError())      # the SYN never gets through
         if port is None or not port.open:
-            return defer.fail(failure.Failure(ConnectionRefusedError()))
+            return failure.Failure(ConnectionRefusedError())
         me = self.side.name
         other = port.side.name
         link = Link(me)
@@ -253,7 +287,7 @@ class ClientEP:
         w.place(link)
         po.makeConnection(link.end[me])
         pi.makeConnection(link.end[other])
-        return defer.succeed(po)
+        return po
 
 
 class BossStub:
@@ -277,6 +311,7 @@ class Side:
         self.arrived = set()      # indices into the PEER's `sent` already handed to our Boss stub
         self.ports = []
         self.endpoints = []       # ClientEPs in creation order (one per scheduled connection)
+        self.inflight = []        # InFlight attempts, oldest first
         self.dilate_called = False
         outer = self
 
@@ -320,7 +355,7 @@ class World:
     def __init__(self, sa, sb, reach="AB", relay=None):
         # the side (at most one) that is configured with a transit relay; the relay is reachable by both
         self.relay_cfg = relay
-        self.rhalf = {"A": None, "B": None}       # (protocol, RelayHalf) waiting at the relay
+        self.rwait = {"A": [], "B": []}           # (protocol, RelayHalf) waiting at the relay, oldest first
         # reachability of the network, fixed for the run: the sides whose DIALLED connections get through to the
         # peer's listener (the other side is behind NAT / a firewall, or the peer does not listen)
         self.reach = {"A": "A" in reach, "B": "B" in reach}
@@ -330,6 +365,13 @@ class World:
         self.sides = {"A": Side(self, "A", sa), "B": Side(self, "B", sb)}
         self.ever_selected = False
         self.details = []         # descriptions of the exceptions of the last operation
+
+    def half(self, x):
+        """x's oldest connection that still waits (open) at the relay"""
+        for h in self.rwait[x]:
+            if h[1].status == "open":
+                return h
+        return None
 
     def peer(self, x):
         return self.sides["B" if x == "A" else "A"]
@@ -440,7 +482,14 @@ class World:
                 continue
             port = self.ports.get(ep.port)
             att.append("1" if (port is not None and peer.con is not None and port.factory._connector is peer.con) else "0")
-        rh = "-" if self.rhalf[x] is None else self.owner(s, self.rhalf[x][0])
+        rh = "+".join(self.owner(s, h[0]) for h in self.rwait[x] if h[1].status == "open") or "-"
+        fly = []
+        for a in s.inflight:
+            if isinstance(a.ep, RelayEP):
+                fly.append("R")
+            else:
+                port = self.ports.get(a.ep.port)
+                fly.append("1" if (port is not None and peer.con is not None and port.factory._connector is peer.con) else "0")
         conn = "-"
         if m._connection is not None:
             k = self.slot_of(m._connection)
@@ -450,7 +499,7 @@ class World:
             k = self.slot_of(p)
             eqs.append(kind + (str(k) if k is not None else "?"))
         tt = "-" if m._traffic is None else automat_state(m._traffic)
-        return (base + f" mgr={automat_state(m)} role={role} con={cst} lst={lst} stale={stale} att=[{','.join(att)}] rh={rh} conn={conn} "
+        return (base + f" mgr={automat_state(m)} role={role} con={cst} lst={lst} stale={stale} att=[{','.join(att)}] fly=[{','.join(fly)}] rh={rh} conn={conn} "
                 f"eq=[{','.join(eqs)}] tt={tt} gen={m._next_dilation_generation} "
                 f"tm={1 if self.ping_timer(s) is not None else 0} oq=[{','.join(str(r.seqnum) for r in m._outbound._outbound_queue)}] "
                 f"rxh={m._inbound._highest_inbound_acked + 1}")
@@ -580,6 +629,19 @@ class World:
         src, dst = (fo, ld) if frm == "f" else (ld, fo)
         return l.ntok[src] == 2 and self.tokens_ready(l, src) >= 1 and l.end[dst].status == "open" and not l.sil[src]
 
+    def cut_ok(self, x):
+        """`WV.C11.enabled (.cut x)`: a path remains for later generations and the last candidate in progress is spared"""
+        other = "B" if x == "A" else "A"
+        if not self.reach[x] or not (self.reach[other] or self.relay_cfg is not None):
+            return False
+        before = self.other_candidates(None)
+        self.reach[x] = False
+        try:
+            after = self.other_candidates(None)
+        finally:
+            self.reach[x] = True
+        return after > 0 or before == 0
+
     def other_candidates(self, i):
         n = 0
         for j, l in enumerate(self.links):
@@ -591,7 +653,7 @@ class World:
             s = self.sides[x]
             peer = self.peer(x)
             if s.mgr is not None and self.reach[x]:
-                for dc, ep in s.pending_attempts():
+                for ep in [ep for dc, ep in s.pending_attempts()] + [a.ep for a in s.inflight]:
                     if isinstance(ep, RelayEP):
                         continue
                     port = self.ports.get(ep.port)
@@ -613,10 +675,10 @@ class World:
         generation has been SENT to it and not yet processed"""
         s = self.sides[x]
         peer = self.peer(x)
-        h = self.rhalf[x]
-        if h is not None and h[1].status == "open" and self.owner(s, h[0]) == "cur":
+        h = self.half(x)
+        if h is not None and self.owner(s, h[0]) == "cur":
             return True
-        if s.mgr is not None and any(isinstance(ep, RelayEP) for dc, ep in s.pending_attempts()):
+        if s.mgr is not None and any(isinstance(ep, RelayEP) for ep in [ep for dc, ep in s.pending_attempts()] + [a.ep for a in s.inflight]):
             return True
         pts = [pt for k, (ph, pt) in enumerate(peer.sent) if k not in s.arrived]
         pts += list(s.boss._rx_dilate_seqnums.values())
@@ -661,8 +723,12 @@ class World:
                 for k in range(len(peer.sent)):
                     if k not in s.arrived:
                         out.append(["arrive", x, k])
-            if s.pending_attempts():
+            if s.pending_attempts() or s.inflight:
                 out.append(["connect", x])
+            if s.pending_attempts():
+                out.append(["dial", x])
+            if self.cut_ok(x):
+                out.append(["cut", x])
             if s.eq._calls:
                 out.append(["turn", x])
             m = s.mgr
@@ -701,7 +767,7 @@ class World:
         skipped = False
         exn = None
         try:
-            if k in ("key", "vers", "dilate", "connect", "turn", "sigrec"):  # noqa
+            if k in ("key", "vers", "dilate", "connect", "dial", "cut", "turn", "sigrec"):  # noqa
                 x = op[1]
                 s = self.sides[x]
                 line = f"{k} {x}"
@@ -725,12 +791,29 @@ class World:
                                 s.dilator.dilate(transit_relay_location=RELAY_LOCATION)
                             else:
                                 s.dilator.dilate()
-                elif k == "connect":
+                elif k == "cut":
+                    # the network changes (NAT rebinding, a firewall, a lost route): x's dialled connections no longer get through
+                    if not self.cut_ok(x):
+                        skipped = True
+                    else:
+                        self.reach[x] = False
+                elif k == "dial":
+                    # the deferLater of the oldest scheduled connection fires: Connector._connect -> ep.connect(f)
                     pa = s.pending_attempts()
                     if not pa:
                         skipped = True
                     else:
                         s.rclock.run(pa[0][0])
+                elif k == "connect":
+                    # the oldest attempt in flight is answered (if none is in flight the oldest scheduled one is dialled first)
+                    pa = s.pending_attempts()
+                    if not s.inflight and not pa:
+                        skipped = True
+                    else:
+                        if not s.inflight:
+                            s.rclock.run(pa[0][0])
+                        if s.inflight:
+                            s.inflight[0].answer()
                 elif k == "turn":
                     due = [dc for dc in s.eqclock.calls if dc.active()]
                     if due:
@@ -836,11 +919,11 @@ class World:
         del LOGGED[nlog:]
         # a connection that was closed while it waited at the relay: the relay forgets it, the protocol is told
         for y in "AB":
-            h = self.rhalf[y]
-            if h is not None and h[1].status == "closing":
-                h[1].status = "lost"
-                self.rhalf[y] = None
-                h[0].connectionLost(failure.Failure(ConnectionDone()))
+            for h in list(self.rwait[y]):
+                if h[1].status == "closing":
+                    h[1].status = "lost"
+                    self.rwait[y].remove(h)
+                    h[0].connectionLost(failure.Failure(ConnectionDone()))
         self.gc()
         if skipped:
             outcome = "skip"
@@ -1020,7 +1103,7 @@ def cooperative_completion(w, log):
         if progress:
             continue
         for x in "AB":
-            if w.sides[x].pending_attempts():
+            if w.sides[x].pending_attempts() or w.sides[x].inflight:
                 do(["connect", x]); progress = True; break
         if progress:
             continue
@@ -1161,6 +1244,9 @@ RELAY_SETUP = [["key", "A", 0], ["key", "B", 0], ["vers", "A", 0], ["vers", "B",
                ["arrive", "A", 0, 0], ["arrive", "B", 0, 0], ["arrive", "B", 1, 0], ["arrive", "B", 2, 0],
                ["connect", "A", 0], ["connect", "B", 0], ["connect", "B", 0], ["hs", 0, 3], ["kcmf", 0, 5], ["turn", "A", 0],
                ["kcml", 0, 2], ["turn", "B", 0]]
+INFLIGHT_SETUP = [["key", "A", 0], ["key", "B", 0], ["vers", "A", 0], ["vers", "B", 0], ["dilate", "A", 0], ["dilate", "B", 0],
+                  ["arrive", "A", 0, 0], ["arrive", "B", 0, 0], ["arrive", "B", 1, 0], ["arrive", "B", 2, 0],
+                  ["dial", "A", 0], ["connect", "B", 0], ["hs", 0, 3], ["kcmf", 0, 5], ["turn", "A", 0], ["kcml", 0, 2], ["turn", "B", 0]]
 CORPUS = [
     # WV.Props.C11.witnessRun: leader's KCM reaches an inbound link of a Connector the follower stopped
     dict(sa="b", sb="a", ops=SETUP + [["lose", "A", 0, 0], ["turn", "A", 0], ["arrive", "B", 1, 0], ["arrive", "B", 2, 0], ["kcml", 0, 1]]),
@@ -1219,6 +1305,16 @@ CORPUS = [
     # relay AND a direct path (only the follower can dial): both candidates complete, the leader picks one
     dict(sa="b" * 16, sb="a" * 16, reach="B", relay="A", ops=RELAY_SETUP[:10] + [["arrive", "A", 1, 0], ["connect", "A", 0], ["connect", "B", 0], ["connect", "B", 0],
                                                                               ["hs", 0, 1], ["hs", 1, 2], ["kcmf", 1, 1], ["kcmf", 0, 1], ["turn", "A", 0], ["turn", "A", 0]]),
+    # an attempt still IN FLIGHT when its generation ends: the leader's connection to the relay is being established while
+    # she selects the direct link (the selection turn must abort it); later the direct path goes away (`cut`), the link is
+    # lost, and generation 2 has only the relay — where nothing of generation 1 may be waiting
+    dict(sa="b" * 16, sb="a" * 16, reach="B", relay="A", ops=INFLIGHT_SETUP + [["connect", "A", 0], ["cut", "B", 0], ["lose", "A", 0, 0], ["turn", "A", 0]]),
+    # the same, the generation ends by `reconnect` while the follower is CONNECTING (Connector.stop) with its relay attempt in flight
+    dict(sa="b" * 16, sb="a" * 16, reach="A", relay="A",
+         ops=[["key", "A", 0], ["key", "B", 0], ["vers", "A", 0], ["vers", "B", 0], ["dilate", "A", 0], ["dilate", "B", 0],
+              ["arrive", "A", 0, 0], ["arrive", "B", 0, 0], ["arrive", "A", 1, 0], ["arrive", "B", 1, 0], ["arrive", "B", 2, 0],
+              ["dial", "B", 0], ["dial", "B", 0], ["connect", "A", 0], ["connect", "A", 0], ["hs", 0, 1], ["kcmf", 0, 1], ["turn", "A", 0],
+              ["lose", "A", 0, 0], ["turn", "A", 0], ["arrive", "B", 3, 0], ["connect", "B", 0], ["connect", "B", 0], ["cut", "A", 0]]),
     # equal sides: ValueError on both
     dict(sa="same", sb="same", ops=[["key", "A", 0], ["vers", "A", 0], ["dilate", "A", 0], ["key", "B", 0], ["vers", "B", 0], ["dilate", "B", 0],
                                     ["arrive", "A", 0, 0], ["arrive", "B", 0, 0]]),
@@ -1233,6 +1329,10 @@ def weight(profile, w, op):
     if k == "write":
         m = w.sides[op[1]].mgr
         return 0.0 if m._outbound._next_outbound_seqnum >= 3 else (0.25 if m._my_role is LEADER else 0.1)
+    if k == "dial":
+        return 0.5
+    if k == "cut":
+        return 0.03
     if k == "tick":
         return {"plain": 0.03, "lossy": 0.25, "races": 0.15}.get(profile, 0.08)
     if k == "silence":
